@@ -18,8 +18,11 @@ RULE = ("1..3 periodic actions (periods 1..10, initial states 0/5/-2) scheduled 
         "reactivex.interval(p)/timer(p, p) subscriptions — on TestScheduler/VirtualTimeScheduler/HistoricalScheduler; the action raises at a chosen "
         "state, sleeps inside the call (drift: 0, < period, = period, > period), disposes its own handle; dispose actions scheduled at/around tick "
         "boundaries; advance_to in one or several steps. Compared with the Lean model on the invocation log (task, clock, state), outcomes, final clock, "
-        "pending count, handler calls. Plus oracle-only timer(d, p), d != p, and timer(d). non-trivial = at least two invocations of some action")
-ASSUMPTIONS = ["virtual-time schedulers only (TestScheduler, VirtualTimeScheduler, HistoricalScheduler); integer times, period >= 1",
+        "pending count, handler calls. Plus several jobs on ONE CatchScheduler (schedule_periodic/interval/timer(p,p), one raising, one scheduled after the "
+        "failure); oracle-only timer(d, p), d != p, and timer(d); oracle-only NewThreadScheduler.schedule_periodic under a controlled clock (per-call "
+        "clock advance 0..2 periods, dispose/raise inside the k-th call). non-trivial = at least two invocations of some action")
+ASSUMPTIONS = ["theorems: virtual-time schedulers only (TestScheduler, VirtualTimeScheduler, HistoricalScheduler); integer times, period >= 1",
+               "NewThreadScheduler runs use real threads with 1-2 ms periods and a controlled `now`; the single worker thread makes the call sequence deterministic",
                "single-threaded use"]
 TRUSTED_EXTRA = []
 
@@ -48,10 +51,96 @@ def cases(rng, tier):
                               via=rng.choice(["schedule_periodic", "schedule_periodic", "schedule_periodic", "interval", "timer"]))
     for _ in range(fw.tier_scale(tier, 400, 4000)):
         yield gen_timer(rng)
+    for _ in range(fw.tier_scale(tier, 300, 3000)):
+        yield vc.gen_catch_siblings(rng)
+    for _ in range(fw.tier_scale(tier, 120, 1200)):
+        yield gen_nts(rng)
+
+
+def gen_nts(rng):
+    """NewThreadScheduler.schedule_periodic under a controlled clock (oracle only): the action advances the clock by 0, half a
+    period, one period or two periods per call (so the loop both waits and skips its wait), and disposes its own handle or
+    raises inside the k-th call"""
+    period_us = rng.choice([1000, 2000])
+    adv = [rng.choice([0, period_us // 2, period_us, 2 * period_us]) for _ in range(8)]
+    if rng.random() < 0.4:
+        adv = [rng.choice([period_us, 2 * period_us])] * 8     # overruns every time
+    end = rng.randrange(0, 7)
+    return {"op": "nts_case", "period_us": period_us, "adv": adv, "st0": rng.choice([0, 0, 5]),
+            "dispose_at": end if rng.random() < 0.7 else None, "raise_at": end if rng.random() < 0.4 else None}
 
 
 def model_request(case):
     return vc.per_model_request(case) if case["op"] == "per_script" else None
+
+
+def _run_nts(case):
+    import threading
+    from datetime import timedelta
+
+    from reactivex.internal.constants import UTC_ZERO
+    from reactivex.scheduler import NewThreadScheduler
+
+    clock = [0]
+    threads = []
+    died = []
+
+    class Controlled(NewThreadScheduler):
+        @property
+        def now(self):
+            return UTC_ZERO + timedelta(microseconds=clock[0])
+
+    def factory(target):
+        def guarded():
+            try:
+                target()
+            except BaseException as e:  # noqa  the worker thread dies with the action's exception
+                died.append(fw.err_name(e))
+
+        t = threading.Thread(target=guarded, daemon=True)
+        threads.append(t)
+        return t
+
+    sched = Controlled(thread_factory=factory)
+    calls = []
+    handle = []
+    st0 = case["st0"]
+    if case["dispose_at"] is None and case["raise_at"] is None:
+        case = dict(case, dispose_at=6)
+
+    def action(state):
+        k = state - st0
+        calls.append([state, "disposed" if handle and getattr(handle[0], "is_disposed", False) else "live"])
+        if len(calls) > 40:
+            raise SystemExit("runaway")       # bounded: a job that cannot be stopped is cut off here
+        clock[0] += case["adv"][k % len(case["adv"])]
+        if case["dispose_at"] is not None and k == case["dispose_at"]:
+            handle[0].dispose()
+        if case["raise_at"] is not None and k == case["raise_at"]:
+            raise fw.InjectedError(f"n{k}")
+        return state + 1
+
+    handle.append(sched.schedule_periodic(case["period_us"] / 1e6, action, st0))
+    threads[0].join(4.0)
+    alive = threads[0].is_alive()
+    if alive:                                  # e.g. dispose_at/raise_at never reached: stop it ourselves
+        handle[0].dispose()
+        threads[0].join(2.0)
+    return {"calls": [c[0] for c in calls], "died": died, "alive_after_join": alive}
+
+
+def nts_oracle(case, out):
+    st0 = case["st0"]
+    ends = [k for k in (case["dispose_at"], case["raise_at"]) if k is not None]
+    last = min(ends) if ends else 6
+    exp = list(range(st0, st0 + last + 1))
+    if out["calls"] != exp:
+        return (f"NewThreadScheduler.schedule_periodic (controlled clock, period {case['period_us']} us, per-call clock advance "
+                f"{case['adv']}): action called with states {out['calls'][:45]}, expected {exp} (state threaded, no call after "
+                f"dispose() in call {case['dispose_at']} / raise in call {case['raise_at']})")
+    if out["alive_after_join"]:
+        return "the periodic thread was still running 4 s after the job was disposed / had raised"
+    return None
 
 
 def _run_timer(case):
@@ -69,6 +158,9 @@ def _run_timer(case):
 
 
 def impl(case):
+    if case["op"] == "nts_case":
+        st, res = vc.alarm_timeout(_run_nts, (case,), 12.0)
+        return res if st == "ok" else {"hang": True, "watchdog_s": 12.0}
     if case["op"] == "timer_case":
         st, res = vc.alarm_timeout(_run_timer, (case,))
         return res if st == "ok" else {"hang": True, "watchdog_s": vc.WATCHDOG_S}
@@ -76,7 +168,7 @@ def impl(case):
 
 
 def canon_impl(case, out):
-    return out if case["op"] == "timer_case" else vc.canon_impl(case, out)
+    return out if case["op"] in ("timer_case", "nts_case") else vc.canon_impl(case, out)
 
 
 canon_model = vc.canon_model
@@ -85,6 +177,8 @@ canon_model = vc.canon_model
 def oracle(case, out):
     if out.get("hang"):
         return "advance_to did not return within the watchdog"
+    if case["op"] == "nts_case":
+        return nts_oracle(case, out)
     if case["op"] == "timer_case":
         c0, d, p, T, D = case["clock"], case["due"], case["period"], case["T"], case["dispose"]
         exp = []
@@ -99,50 +193,12 @@ def oracle(case, out):
         if out["seen"] != exp:
             return f"timer({d}, {p}) from clock {c0} until {T} (dispose {D}) emitted {out['seen'][:8]}, expected {exp[:8]}"
         return None
-    # periodic scripts: the property text on the event trace
-    tasks = {}
-    slept = any(f["sleep_at"] for f in case.get("fns", []))
-    nper = sum(1 for op in case["ops"] if op[0] == "periodic")
-    if slept and nper == 1:
-        # a single task whose in-call sleeps never exceed its period still ticks exactly on the multiples (drift correction)
-        per = next(op[2] for op in case["ops"] if op[0] == "periodic")
-        if all(d <= per for f in case["fns"] for _, d in f["sleep_at"]):
-            slept = False
-    for ev in out["events"]:
-        k = ev[0]
-        if k == "periodic":
-            _, pid, clock, period, st = ev
-            tasks[pid] = {"t0": clock, "p": period, "st": st, "n": 0, "last": None, "stopped": False}
-        elif k == "tick":
-            _, pid, clock, st = ev
-            t = tasks[pid]
-            if t["stopped"]:
-                return f"periodic action {pid} invoked at {clock} after it was disposed / had raised"
-            if st != t["st"]:
-                return f"periodic action {pid}: invocation {t['n']} got state {st}, the previous call returned {t['st']}"
-            if not slept:
-                if clock != t["t0"] + (t["n"] + 1) * t["p"]:
-                    return f"periodic action {pid}: invocation {t['n']} at clock {clock}, expected {t['t0'] + (t['n'] + 1) * t['p']}"
-            elif t["last"] is not None and clock < t["last"] + t["p"]:
-                return f"periodic action {pid}: invocations at {t['last']} and {clock} are closer than the period {t['p']}"
-            t["st"] = st + 1
-            t["n"] += 1
-            t["last"] = clock
-        elif k in ("dispose", "raise"):
-            if ev[1] in tasks:
-                tasks[ev[1]]["stopped"] = True
-    # nothing due was left out: with no sleeps, no failure and no disposal the count is floor((T - t0) / p)
-    if not slept and all(o == "ok" for o in out["outs"]):
-        T = out["clock"]
-        for pid, t in tasks.items():
-            if not t["stopped"]:
-                exp = (T - t["t0"]) // t["p"]
-                if t["n"] != exp:
-                    return f"periodic action {pid} was invoked {t['n']} times until {T}, expected {exp}"
-    return None
+    return vc.periodic_property_oracle(case, out)
 
 
 def nontrivial(case, out):
+    if case["op"] == "nts_case":
+        return len(out.get("calls", [])) >= 2
     if case["op"] == "timer_case":
         return len(out.get("seen", [])) >= 2
     counts = {}
@@ -152,6 +208,9 @@ def nontrivial(case, out):
 
 
 def bucket(case, out):
+    if case["op"] == "nts_case":
+        yield "newthread:" + ("overrun" if all(a >= case["period_us"] for a in case["adv"]) else "mixed")
+        return
     if case["op"] == "timer_case":
         yield "timer:" + ("single" if case["period"] is None else "periodic") + (":disposed" if case["dispose"] is not None else "")
         return
@@ -190,8 +249,10 @@ LEVEL_TEXT = ("Lean, on the model of PeriodicScheduler.schedule_periodic (and Ca
               "and after the action raises, it is never invoked again whatever calls follow (invariant over all scripts with any number of tasks); the "
               "advance_to loop over self-rescheduling work terminates (decreasing weight). Tied to /repo by differential runs on the three virtual-time "
               "schedulers incl. reactivex.interval/timer, and an oracle from the property text.")
-LEVEL_NOTE = ("Virtual-time schedulers only: the real-thread periodic schedulers named in the property (EventLoopScheduler, NewThreadScheduler; "
-              "CatchScheduler is covered over a virtual-time inner scheduler) are NOT modelled or exercised — no controlled-clock harness was built for them. "
+LEVEL_NOTE = ("Theorems and model are for virtual time only. Real-thread periodic schedulers: NewThreadScheduler.schedule_periodic is exercised by an ORACLE-ONLY "
+              "controlled-clock run (subclass overriding `now`; state threading and 'no call after dispose/raise', including overrunning actions; not the timing, "
+              "not modelled in Lean); EventLoopScheduler periodic (PeriodicScheduler.schedule_periodic over its timer queue) is NOT covered by this check. "
+              "CatchScheduler is covered over a virtual-time inner scheduler. "
               "The closed form is for one task on an otherwise idle scheduler with in-call sleeps <= period; with several tasks or longer sleeps only the "
               "stop/threading invariants are proved (timing then depends on the other work) — the correspondence covers those mixes. timer(d, p) with d != p "
               "(absolute rescheduling in observable/timer.py) is checked by the oracle only, not modelled. period <= 0 (the real advance_to then spins for ever) "
